@@ -1059,7 +1059,7 @@ func codecStream(cfg *Config) *hx.Stats {
 		"directed:max-digest-level-committed", "observation:digest-level-limit", "directed:extra-data-256-entries-committed",
 		"observation:extra-data-index-limit", "encerr:xdindex", "encerr:level", "directed:extra-data-limit-recovered",
 		"observation:decmode-nesting-limit", "directed:nesting-reloaded:arr", "directed:nesting-reloaded:map", "directed:nesting-reloaded:warr",
-		"directed:compact-type-id-reloaded", "inline:named-compact"} {
+		"directed:compact-type-id-reloaded", "inline:named-compact", "usz:all-width-boundaries"} {
 		// (a run cut short by violations is judged by those, not by its coverage)
 		if st.Dist[tag] == 0 && st.HarnessErr == "" && len(st.Violations) == 0 {
 			st.HarnessErr = "codec stream never produced " + tag
